@@ -430,10 +430,10 @@ class DAGRunConcurrentManager(DAGRunManagerLike):
         Get the node's dependencies
         """
 
-        node_predecessors = set(self.dag.graph.predecessors(node_id))
-        current_dag = set(nx.topological_sort(dag))
-
-        return current_dag.intersection(node_predecessors)
+        # Only the dependencies that the current dag itself declares: a reduced dag has no edges from the cases
+        # to the switch node, hence resolving the switch must not wait for a case that happens to be a member
+        # of the dag for another reason (the node order does not guarantee that such a case is started earlier).
+        return set(dag.predecessors(node_id))
 
     def _get_predecessors(self, dag: DiGraph, node_id: NodeId) -> t.List[NodeId]:
         """
